@@ -91,11 +91,18 @@ def rule_a(repo, res):
     call = [c for c in ast.walk(fn) if isinstance(c, ast.Call) and dotted(c.func) == "make_matching_sequence"]
     ok = names is not None and len(call) == 1 and call[0].args and dotted(call[0].args[0]) == names
     res.check(ok, "C03.a", "make_sequence:search-gets-the-picture-units", where, "the required symbols given to make_matching_sequence must be the parse-code names of the picture data units, in order", by="[unit['parse_info']['parse_code'].name for unit in units]")
+    # the makers dictionary: the local assigned a dict literal keyed by data-unit names
+    MK = None
+    for n in ast.walk(fn):
+        if isinstance(n, ast.Assign) and isinstance(n.targets[0], ast.Name) and isinstance(n.value, ast.Dict) and n.value.keys and all(const_str(k) is not None for k in n.value.keys) and "sequence_header" in [const_str(k) for k in n.value.keys]:
+            MK = n.targets[0].id
+    if MK is None:
+        raise AnalysisError("make_sequence: dictionary of data unit makers not found")
     # makers: picture symbol -> pop(0) of that same list
     pop_ok = False
     key_ok = False
     for n in ast.walk(fn):
-        if isinstance(n, ast.Assign) and isinstance(n.targets[0], ast.Subscript) and dotted(n.targets[0].value) == "data_unit_makers" and isinstance(n.value, ast.Call) and dotted(n.value.func) == "partial":
+        if isinstance(n, ast.Assign) and isinstance(n.targets[0], ast.Subscript) and dotted(n.targets[0].value) == MK and isinstance(n.value, ast.Call) and dotted(n.value.func) == "partial":
             a = n.value.args
             pop_ok = len(a) == 2 and norm(a[0]) == "%s.pop" % seqv and isinstance(a[1], ast.Constant) and a[1].value == 0
             k = n.targets[0].slice
@@ -114,12 +121,12 @@ def rule_a(repo, res):
         lc = kw.get("data_units")
         if isinstance(lc, ast.ListComp) and len(lc.generators) == 1 and dotted(lc.generators[0].iter) == resv and not lc.generators[0].ifs:
             sym = dotted(lc.generators[0].target)
-            ok = norm(lc.elt) == "data_unit_makers[%s]()" % sym
+            ok = norm(lc.elt) == "%s[%s]()" % (MK, sym)
     res.check(ok, "C03.a", "make_sequence:one-unit-per-symbol", where, "the sequence must consist of data_unit_makers[symbol]() for each symbol of the search's result, in order", by="[data_unit_makers[name]() for name in required names]")
     # makers of the non-picture units build the unit of their own name
     makers = {}
     for n in ast.walk(fn):
-        if isinstance(n, ast.Assign) and dotted(n.targets[0]) == "data_unit_makers" and isinstance(n.value, ast.Dict):
+        if isinstance(n, ast.Assign) and dotted(n.targets[0]) == MK and isinstance(n.value, ast.Dict):
             for k, v in zip(n.value.keys, n.value.values):
                 f = v.args[0] if isinstance(v, ast.Call) and dotted(v.func) == "partial" else v
                 makers[const_str(k)] = dotted(f)
